@@ -49,7 +49,7 @@ let cps_of_field (s : string) : n list =   (* "1,2,3" -> code points ; "" -> [] 
 let field_of_cps (l : n list) : string = String.concat "," (List.map (fun c -> ZZ.to_string (zz_of_n c)) l)
 
 (* ---- number layer: prefix expression language ---- *)
-type value =
+type dvalue =
   | VBig of big | VNum of num | VBool of bool | VCmp of comparison option
   | VStr of n list | VErr of string | VInt of z | VU of n
 
@@ -60,7 +60,7 @@ let big_lit (s : string) : big =   (* "+5,1" / "-5,1" *)
   let limbs = cps_of_field (String.sub s 1 (String.length s - 1)) in
   let b = from_vec limbs in if neg then bminus b else b
 
-let rec eval (toks : string list) : value * string list =
+let rec eval (toks : string list) : dvalue * string list =
   match toks with
   | [] -> raise (Bad "eof")
   | t :: rest ->
@@ -130,7 +130,7 @@ let rec eval (toks : string list) : value * string list =
     end
 
 let b01 b = if b then "1" else "0"
-let render (v : value) : string =
+let render (v : dvalue) : string =
   match v with
   | VBig a -> Printf.sprintf "B:%s:%s:%s" (utf8_of_cps (big_display a)) (b01 a.bpos) (b01 (is_zero a))
   | VNum a -> Printf.sprintf "N:%s:%s:%s" (utf8_of_cps (num_display a)) (b01 (is_pos a)) (b01 (is_nan a))
@@ -172,6 +172,147 @@ let handle_reparse (toks : string list) : string =
   let again = parse (List.concat (List.map (fun u -> u.raw) cmds)) in
   String.concat "|" (List.map render_stripped cmds) ^ "#" ^ String.concat "|" (List.map render_stripped again)
 
+(* ---- interpreter layer ---- *)
+let str_of_num (x : num) : string = if is_nan x then "nan" else utf8_of_cps (num_display x)
+let nstr (x : n) : string = ZZ.to_string (zz_of_n x)
+let render_state (s : state) : string =
+  let stk = List.filter (fun (_, l) -> l <> []) s.stacks in
+  let stk = List.sort (fun (a, _) (b, _) -> ZZ.compare (zz_of_n a) (zz_of_n b)) stk in
+  let pts = List.sort (fun (a, _) (b, _) -> ZZ.compare (zz_of_n a) (zz_of_n b)) s.points in
+  Printf.sprintf "c=%s|s=%s|l=%s|p=%s" (nstr s.cur)
+    (String.concat ";" (List.map (fun (i, l) -> nstr i ^ ":" ^ String.concat "," (List.rev_map str_of_num l)) stk))
+    (match s.latest with None -> "-" | Some l -> nstr l)
+    (String.concat "," (List.map (fun (a, b) -> nstr a ^ ":" ^ nstr b) pts))
+let rec split_lines (l : n list) (cur : n list) : n list option list =
+  let fin cur = let line = List.rev cur in
+    if List.exists (fun c -> int_of_n c = 1114112) line then None else Some line in
+  match l with
+  | [] -> if cur = [] then [] else [fin cur]
+  | c :: r -> if int_of_n c = 10 then fin (c :: cur) :: split_lines r [] else split_lines r (c :: cur)
+let delta (before : n list) (after : n list) : string =   (* both reversed buffers; after extends before *)
+  let k = List.length after - List.length before in
+  let rec take i l = if i <= 0 then [] else match l with [] -> [] | x :: r -> x :: take (i - 1) r in
+  dotted (List.rev (take k after))
+let outcome_str (f : final) : string =
+  match f with
+  | FDone _ -> "done" | FExit (c, _) -> "exit" ^ nstr c
+  | FErr (EEnc n, _) -> "err:enc:" ^ nstr n | FErr (EIo, _) -> "err:io"
+  | FFuel (_, _) -> "fuel" | FPanic _ -> "panic"
+let prog_of (t : string) : xcode list = List.map xcode_of_ucode (parse (cps_of_field t))
+(* exec pre <maxsteps> <prog> <stdin>: execute_one over the preloaded program, state after every step *)
+let handle_exec_pre (toks : string list) : string =
+  match toks with
+  | ms :: prog :: rest ->
+    let maxsteps = int_of_string ms in
+    let code = prog_of prog in
+    let input = split_lines (match rest with [] -> [] | t :: _ -> cps_of_field t) [] in
+    let len = List.length code in
+    let b = Buffer.create 256 in
+    let rec go k (s : state) (pc : int) =
+      if pc >= len then Buffer.add_string b "END:done"
+      else if k >= maxsteps then Buffer.add_string b "END:fuel"
+      else match execute_one (List.nth code pc) (n_of_int pc) s with
+        | ROk (pc', s') ->
+          Buffer.add_string b (Printf.sprintf "%s|pc=%s|o+=%s|e+=%s;;" (render_state s') (nstr pc') (delta s.outb s'.outb) (delta s.errb s'.errb));
+          go (k + 1) s' (int_of_n pc')
+        | RExit (c, s') -> Buffer.add_string b (Printf.sprintf "X|o+=%s|e+=%s;;END:exit%s" (delta s.outb s'.outb) (delta s.errb s'.errb) (nstr c))
+        | RErr (e, s') -> Buffer.add_string b (Printf.sprintf "X|o+=%s|e+=%s;;END:%s" (delta s.outb s'.outb) (delta s.errb s'.errb)
+                                                (match e with EEnc n -> "err:enc:" ^ nstr n | EIo -> "err:io")) in
+    go 0 (state0 SUnopt input) 0;
+    (* cross-check the model's own loop *)
+    let f = run_pre (nat_of_int maxsteps) code (state0 SUnopt input) N0 in
+    let tail = "END:" ^ outcome_str f in
+    let res = Buffer.contents b in
+    let n1 = String.length res and n2 = String.length tail in
+    if n1 >= n2 && String.sub res (n1 - n2) n2 = tail then res else res ^ "##run_pre-disagrees:" ^ tail
+  | _ -> "bad:args"
+(* exec run <fuel> <prog> <stdin>: the incremental loop of run.rs at level 0; whole-run observables *)
+let handle_exec_run (toks : string list) : string =
+  match toks with
+  | ms :: prog :: rest ->
+    let code = prog_of prog in
+    let input = split_lines (match rest with [] -> [] | t :: _ -> cps_of_field t) [] in
+    let f = run_inc (nat_of_int (int_of_string ms)) [] code (state0 SUnopt input) in
+    let s = final_state f in
+    Printf.sprintf "END:%s|o=%s|e=%s" (outcome_str f) (dotted (List.rev s.outb)) (dotted (List.rev s.errb))
+  | _ -> "bad:args"
+
+(* ---- L2 language definition ---- *)
+let str_of_value (v : value) : string = match v with Model.VNaN -> "nan" | _ -> utf8_of_cps (value_text v)
+let render_lstate (s : lstate) : string =
+  let stk = List.filter (fun (_, l) -> l <> []) s.stk in
+  let stk = List.sort (fun (a, _) (b, _) -> ZZ.compare (zz_of_n a) (zz_of_n b)) stk in
+  let pts = List.sort (fun (a, _) (b, _) -> ZZ.compare (zz_of_n a) (zz_of_n b)) s.labels in
+  Printf.sprintf "c=%s|s=%s|l=%s|p=%s" (nstr s.sel)
+    (String.concat ";" (List.map (fun (i, l) -> nstr i ^ ":" ^ String.concat "," (List.rev_map str_of_value l)) stk))
+    (match s.lastj with None -> "-" | Some l -> nstr l)
+    (String.concat "," (List.map (fun (a, b) -> nstr a ^ ":" ^ nstr b) pts))
+let sdelta (before : n list) (after : n list) : string =
+  let rec drop i l = if i <= 0 then l else match l with [] -> [] | _ :: r -> drop (i - 1) r in
+  dotted (drop (List.length before) after)
+let sprog_of (t : string) : scmd list = List.map scmd_of_ucode (parse (cps_of_field t))
+let serr_str e = match e with SEnc n -> "err:enc:" ^ nstr n | SIo -> "err:io"
+let handle_spec_pre (toks : string list) : string =
+  match toks with
+  | ms :: prog :: rest ->
+    let maxsteps = int_of_string ms in
+    let code = sprog_of prog in
+    let input = split_lines (match rest with [] -> [] | t :: _ -> cps_of_field t) [] in
+    let len = List.length code in
+    let b = Buffer.create 256 in
+    let rec go k (s : lstate) (pc : int) =
+      if pc >= len then Buffer.add_string b "END:done"
+      else if k >= maxsteps then Buffer.add_string b "END:fuel"
+      else let c = List.nth code pc in
+        match sstep c.sk c.sn c.sd c.scount c.sa (n_of_int pc) s with
+        | SOk (pc', s') ->
+          Buffer.add_string b (Printf.sprintf "%s|pc=%s|o+=%s|e+=%s;;" (render_lstate s') (nstr pc') (sdelta s.out s'.out) (sdelta s.err s'.err));
+          go (k + 1) s' (int_of_n pc')
+        | SExit (c, s') -> Buffer.add_string b (Printf.sprintf "X|o+=%s|e+=%s;;END:exit%s" (sdelta s.out s'.out) (sdelta s.err s'.err) (nstr c))
+        | SErr (e, s') -> Buffer.add_string b (Printf.sprintf "X|o+=%s|e+=%s;;END:%s" (sdelta s.out s'.out) (sdelta s.err s'.err) (serr_str e)) in
+    go 0 (lstate0 input) 0;
+    Buffer.contents b
+  | _ -> "bad:args"
+let handle_spec_run (toks : string list) : string =
+  match toks with
+  | ms :: prog :: rest ->
+    let code = sprog_of prog in
+    let input = split_lines (match rest with [] -> [] | t :: _ -> cps_of_field t) [] in
+    (match srun (nat_of_int (int_of_string ms)) code (lstate0 input) N0 with
+     | SDone s -> Printf.sprintf "END:done|o=%s|e=%s" (dotted s.out) (dotted s.err)
+     | SExited (c, s) -> Printf.sprintf "END:exit%s|o=%s|e=%s" (nstr c) (dotted s.out) (dotted s.err)
+     | SFailed (e, s) -> Printf.sprintf "END:%s|o=%s|e=%s" (serr_str e) (dotted s.out) (dotted s.err)
+     | SRunning (s, _) -> Printf.sprintf "END:fuel|o=%s|e=%s" (dotted s.out) (dotted s.err))
+  | _ -> "bad:args"
+
+(* ---- optimiser layer ---- *)
+let fixes_of (t : string) : fixes = if t = "optpin" then pinned else all_fixed
+let render_xcode (c : xcode) : string =
+  Printf.sprintf "%s,%s,%s,%s,%s" (nstr c.xty) (nstr c.xhc) (nstr c.xdc) (nstr c.xac) (dotted (area_debug c.xar))
+(* opt|optpin run <level> <fuel> <prog> <stdin> *)
+let handle_opt_run (which : string) (toks : string list) : string =
+  match toks with
+  | lv :: ms :: prog :: rest ->
+    let code = parse (cps_of_field prog) in
+    let input = split_lines (match rest with [] -> [] | t :: _ -> cps_of_field t) [] in
+    let f = run_level (fixes_of which) (nat_of_int (int_of_string ms)) code (n_of_int (int_of_string lv)) input in
+    let s = final_state f in
+    Printf.sprintf "END:%s|o=%s|e=%s" (outcome_str f) (dotted (List.rev s.outb)) (dotted (List.rev s.errb))
+  | _ -> "bad:args"
+(* opt|optpin state <level> <prog>: the result of optimize() *)
+let handle_opt_state (which : string) (toks : string list) : string =
+  match toks with
+  | lv :: rest ->
+    let code = parse (cps_of_field (match rest with [] -> "" | t :: _ -> t)) in
+    (match optimize_prog (fixes_of which) code (n_of_int (int_of_string lv)) [] with
+     | OptOk r -> Printf.sprintf "ok|%s|o=%s|e=%s|log=%d|rest=%s" (render_state r.ostate)
+                    (dotted (List.rev r.ostate.outb)) (dotted (List.rev r.ostate.errb)) (List.length r.olog)
+                    (String.concat ";" (List.map render_xcode r.orest))
+     | OptErr (EEnc n) -> "err:enc:" ^ nstr n
+     | OptErr EIo -> "err:io"
+     | OptStuck -> "stuck")
+  | _ -> "bad:args"
+
 let () =
   try
     while true do
@@ -185,6 +326,12 @@ let () =
           | "parsepre" :: rest -> handle_parse true rest
           | "parsespec" :: rest -> handle_parsespec rest
           | "reparse" :: rest -> handle_reparse rest
+          | "exec" :: "pre" :: rest -> handle_exec_pre rest
+          | "exec" :: "run" :: rest -> handle_exec_run rest
+          | "spec" :: "pre" :: rest -> handle_spec_pre rest
+          | ("opt" | "optpin" as w) :: "run" :: rest -> handle_opt_run w rest
+          | ("opt" | "optpin" as w) :: "state" :: rest -> handle_opt_state w rest
+          | "spec" :: "run" :: rest -> handle_spec_run rest
           | _ -> "bad:layer"
         with Bad m -> "bad:" ^ m | Stack_overflow -> "bad:stack" in
       print_string out; print_newline ()
